@@ -209,7 +209,7 @@ POpHash(op) == Mix(IF op.f = "product" THEN 3 ELSE IF op.f = "derive" THEN 5 ELS
 OutSingle(s) == LET e == ErrorOf(s) IN
     [err |-> e, ordered |-> OrderFixedOf(s),
      combos |-> IF e = "" THEN CombosOf(s) ELSE <<>>,
-     \* Sweep(items, dims, exclude, constants).add_derivers(derivers..).list()
+     \* Sweep(items, dims, exclude, constants).add_derivers(derivers).list()  (keyword arguments)
      added  |-> IF e = "" /\ s.ders # <<>> THEN CombosOf(AddDerivers(WithoutDerivers(s), s.ders)) ELSE <<>>,
      len |-> IF e = "" THEN LenOf(s) ELSE 0]          \* len of a sweep whose list() raises: no claim
 
